@@ -97,7 +97,8 @@ def gen_lattice(rng, interp):
   units = rng.choice([1, 1, 2, 3])
   clip = rng.random() < 0.6
   as_list = rng.random() < 0.3
-  allow_out = clip or rng.random() < 0.3
+  # simplex interpolation without clipping gathers out of the kernel for out-of-range points (TF raises)
+  allow_out = clip or (interp == "hypercube" and rng.random() < 0.3)
   xs = [[_lattice_coord(rng, s, allow_out) for s in sizes] for _ in range(units)]
   if rng.random() < 0.2 and dims >= 2:   # tied coordinates (simplex sort ties)
     for x in xs:
@@ -114,7 +115,7 @@ def gen_pwl(rng):
   for _ in range(nk - 1):
     kp.append(kp[-1] + rng.choice([0.125, 0.5, 0.75, 1.0, 1.5, 3.0]))
   units = rng.choice([1, 1, 2, 3])
-  cyclic = rng.random() < 0.3
+  cyclic = nk >= 3 and rng.random() < 0.35   # a cyclic calibrator needs >= 2 free weights
   missing_form = rng.choice(["none", "none", "value", "tensor"])
   missing_value = kp[0] - 1.0 if rng.random() < 0.5 else kp[rng.randrange(nk)] + 0.0625
   shared = units > 1 and rng.random() < 0.3 and missing_form != "tensor"
@@ -125,6 +126,7 @@ def gen_pwl(rng):
     if c < 0.3: return kp[0] - rng.choice([0.5, 2.0])
     if c < 0.4: return kp[-1] + rng.choice([0.5, 2.0])
     if c < 0.55 and missing_form == "value": return missing_value
+    if c < 0.7: return _dy(rng, kp[-2], kp[-1], 16)   # last segment (the one a cyclic calibrator folds back)
     return _dy(rng, kp[0], kp[-1], 16)
   xs = [coord() for _ in range(units)]
   if shared:
@@ -163,7 +165,7 @@ def gen_kfl(rng):
     for _ in range(dims):
       c = rng.random()
       if c < 0.45: x.append(float(rng.randint(0, size - 1)))
-      elif c < 0.55 and clip: x.append(rng.choice([-0.75, size - 1 + 0.5]))
+      elif c < 0.62 and clip: x.append(rng.choice([-0.75, size - 1 + 0.5]))
       else: x.append(rng.randint(0, (size - 1) * 4 - 1) / 4.0 + 0.125)   # never an integer: differentiable in x
     xs.append(x)
   # kernel[k][u*dims+d][t]
@@ -189,12 +191,18 @@ def gen_kfl(rng):
 def gen_descs(ctx):
   rng = ctx.rng
   out = []
-  for _ in range(ctx.n(120, 3000)): out.append(gen_prod(rng))
-  for _ in range(ctx.n(45, 1000)): out.append(gen_kfl(rng))
-  for _ in range(ctx.n(45, 1000)): out.append(gen_lattice(rng, "hypercube"))
-  for _ in range(ctx.n(40, 1000)): out.append(gen_lattice(rng, "simplex"))
-  for _ in range(ctx.n(40, 1000)): out.append(gen_pwl(rng))
-  for _ in range(ctx.n(25, 500)): out.append(gen_cat(rng))
+  # the two witnesses of Props/C19.v *_refuted (clip_inputs=False, point outside the range), replayed on the
+  # real layer on every run; the model must reproduce the implementation's non-convex weights
+  for sizes, x in (([2], [1.5]), ([3], [2.5])):
+    for as_list in (False, True):
+      out.append(dict(kind="lattice", interp="hypercube", sizes=sizes, units=1, clip=False, as_list=as_list,
+                      xs=[x], kernels=[[[0.5]] * sizes[0], [[-1.0 * k] for k in range(sizes[0])]]))
+  for _ in range(ctx.n(160, 3000)): out.append(gen_prod(rng))
+  for _ in range(ctx.n(60, 1000)): out.append(gen_kfl(rng))
+  for _ in range(ctx.n(60, 1000)): out.append(gen_lattice(rng, "hypercube"))
+  for _ in range(ctx.n(60, 1000)): out.append(gen_lattice(rng, "simplex"))
+  for _ in range(ctx.n(70, 1000)): out.append(gen_pwl(rng))
+  for _ in range(ctx.n(30, 500)): out.append(gen_cat(rng))
   return out
 
 
@@ -237,7 +245,7 @@ def eval_prod(tf, kfl_lib, d):
             want *= fr[j]
         if not _close(float(grows[r][i]), float(want), TOL32):
           fail = ("custom_reduce_prod gradient differs from the derivative of the plain product: slice %r "
-                  "(upstream %r) position %d: got %r, derivative %r" % (list(rows[r]), dys[r], i,
+                  "(upstream %r) position %d: got %r, derivative %r" % ([float(v) for v in rows[r]], float(dys[r]), i,
                                                                         float(grows[r][i]), float(want)))
           break
       if fail: break
@@ -267,7 +275,7 @@ def _kernel_grad_cases(tf, layer, call, units, kernels):
   fail = None
   grads = []
   for K in kernels:
-    Ka = np.array(K, dtype=np.float64)
+    Ka = np.array(K, dtype=layer.kernel.dtype.as_numpy_dtype)
     layer.kernel.assign(Ka)
     per_unit = []
     for u, (yu, g) in enumerate(_unit_grads(tf, layer, call, units)):
@@ -346,10 +354,11 @@ def eval_pwl(tf, tfl, d):
 
 def eval_cat(tf, tfl, d):
   units, nb = d["units"], d["nb"]
-  layer = tfl.layers.CategoricalCalibration(num_buckets=nb, units=units, default_input_value=d["default"],
-                                            dtype="float64")
+  # float32: the layer's tf.one_hot is float32 whatever the layer dtype (a float64 layer raises in matmul);
+  # the gradients are exactly 0 or 1 anyway
+  layer = tfl.layers.CategoricalCalibration(num_buckets=nb, units=units, default_input_value=d["default"])
   x = np.array([d["idx"]] if units > 1 else [[d["idx"][0]]])
-  inp = tf.constant(x.astype(np.float64 if d["float_input"] else np.int32))
+  inp = tf.constant(x.astype(np.float32 if d["float_input"] else np.int32))
   layer(inp)
   grads, fail = _kernel_grad_cases(tf, layer, lambda: layer(inp), units, d["kernels"])
   coq = "CCat %s %s %s %s" % (cnat(nb), copt(d["default"], cz), czl(d["idx"]), _cube(grads))
@@ -399,9 +408,14 @@ def eval_kfl(tf, tfl, kfl_lib, d):
   other = np.delete(gk[0], list(range(u * dims, (u + 1) * dims)), axis=1)
   if fail is None and other.size and np.max(np.abs(other)) > 1e-12:
     fail = "gradient of KFL output %d w.r.t. another unit's kernel is not zero" % u
-  coq = "CKfl %s %s %s %s %s %s %s %s %s" % (
+  gxu = gx[0] if units == 1 else gx[0, u]
+
+  def kink(v):   # input on a kink of its 1-D interpolation weights: not differentiable, not compared
+    return float(v).is_integer() and (size != 2 or (d["clip"] and v in (0.0, 1.0)))
+  gxo = [None if kink(v) else float(g) for v, g in zip(d["xs"][u], gxu)]
+  coq = "CKfl %s %s %s %s %s %s %s %s %s %s" % (
       cbool(d["clip"]), cnat(size), cql(d["xs"][u]), cq(d["bias"][u]), cql(d["scale"][u]), _cube(Ks),
-      cq(out), _cube(gK), cql([float(v) for v in gs[u]]))
+      cq(out), _cube(gK), cql([float(v) for v in gs[u]]), clist([copt(g) for g in gxo]))
   klass = "kfl_s%d_u%d_%s_zeros-%s" % (min(size, 3), min(units, 2), "clip" if d["clip"] else "noclip", d["zero_mode"])
   return Case(d, coq=coq, pred_fail=fail, nontrivial=True, klass=klass,
               info={"impl_out": out, "impl_grad_kernel_unit": gK, "impl_grad_scale": gs[u].tolist(),
@@ -414,16 +428,22 @@ def eval_cases(ctx, descs):
   cases = []
   for d in descs:
     k = d["kind"]
-    if k == "prod":
-      cases.append(eval_prod(tf, kfl_lib, d))
-    elif k == "lattice":
-      cases.append(eval_lattice(tf, tfl, d))
-    elif k == "pwl":
-      cases.append(eval_pwl(tf, tfl, d))
-    elif k == "cat":
-      cases.append(eval_cat(tf, tfl, d))
-    elif k == "kfl":
-      cases.append(eval_kfl(tf, tfl, kfl_lib, d))
-    else:
-      raise ValueError("unknown case kind %r" % k)
+    try:
+      if k == "prod":
+        cases.append(eval_prod(tf, kfl_lib, d))
+      elif k == "lattice":
+        cases.append(eval_lattice(tf, tfl, d))
+      elif k == "pwl":
+        cases.append(eval_pwl(tf, tfl, d))
+      elif k == "cat":
+        cases.append(eval_cat(tf, tfl, d))
+      elif k == "kfl":
+        cases.append(eval_kfl(tf, tfl, kfl_lib, d))
+      else:
+        raise ValueError("unknown case kind %r" % k)
+    except (tf.errors.OpError, ValueError, TypeError) as e:
+      # every generated configuration is valid and inside the domain: an exception is a failing input
+      cases.append(Case(d, coq=None, klass="raised_" + k,
+                        pred_fail="%s case: the implementation raised %s: %s" % (
+                            k, type(e).__name__, " ".join(str(e).split())[:300])))
   return cases
